@@ -1305,6 +1305,14 @@ func (ev *Env) builtinSpec(name string, argEs []Expr) (T, bool) {
 		pe.vars = ev.vars // quantified variables stay visible
 		pe.qdepth = ev.qdepth
 		return pe.eval(argEs[0]), true
+	case "uint8":
+		// uint8(x): the Go conversion to byte — of a float (truncation toward zero, then modulo 256) or of an integer
+		a := arg(0)
+		v := a.S
+		if a.Sort == "Real" {
+			v = fmt.Sprintf("(rtrunc %s)", a.S)
+		}
+		return T{fmt.Sprintf("(mod %s 256)", v), "Int", types.Typ[types.Uint8]}, true
 	case "deref":
 		// deref(p): the value p points to
 		a := arg(0)
